@@ -390,6 +390,30 @@ BUILTIN_MODELS = {
 
 
 # --------------------------------------------------------------------------- binascii / struct
+py_fromhex_ok = z3.Function("py_fromhex_ok", STR, z3.BoolSort())
+
+
+def m_fromhex(it, a, k):
+    """bytes.fromhex(text): NOT the same acceptance as binascii.unhexlify - it skips ASCII whitespace between byte
+    pairs.  Modelled by its own predicate with the one law `unhexlify accepts s  =>  fromhex accepts s, same bytes`
+    (audited natively); what else it accepts is left open, so code that swaps one decoder for the other is not
+    silently taken to validate the same language."""
+    if len(a) != 1 or k:
+        raise Unsupported("bytes.fromhex arguments")
+    v = ops.specialize(it, a[0])
+    kind, t = lift(v)
+    if kind != "str":
+        it.raise_(TypeError, "fromhex() argument must be str")
+    ok, b = lawbook(it.ctx).unhexlify(t)
+    fok = py_fromhex_ok(t)
+    it.ctx.add_fact(z3.Implies(ok, fok))
+    if not it.branch(fok):
+        it.raise_(ValueError, "non-hexadecimal number found in fromhex() arg")
+    r = it.ctx.fresh_term(b.sort(), "fromhex")
+    it.ctx.add_fact(z3.Implies(ok, r == b))
+    return SeqVal("byte", r, "bytes")
+
+
 def m_unhexlify(it, a, k):
     v = a[0]
     if ops.all_concrete(a):
